@@ -675,6 +675,84 @@ fn run_inst<T: Sc>(line: &Line, idx: usize, pools: &Pools, opts: &Opts, rep: &mu
         }
     }
 
+    // ---------------- data-scaled and row-replicated twins ----------------
+    // Everything a problem exposes is linear in the observations: Y * 2^k gives coefficients, residuals
+    // and Jacobian * 2^k (no absolute magnitude plays a role).  Replicating every sample K times (same
+    // row of the model, same observation, same weight) leaves the optimum where it is: same
+    // coefficients, residuals and Jacobian rows repeated - at a sample count far beyond the lattice.
+    if idx % 3 != 0 || inst.m < 2 {
+        let mrhs = inst.s >= 2 || idx % 5 == 0;
+        let par = idx % 4 == 1;
+        let yexp: i32 = if T::NAME == "f64" { if idx % 2 == 0 { -40 } else { 40 } } else if idx % 2 == 0 { -20 } else { 20 };
+        let kk: usize = [1usize, 40, 7][idx % 3];
+        let n2 = inst.n * kk;
+        let ysc = T::of64((2.0f64).powi(yexp));
+        let rep_rows = |mtx: &DMatrix<T>| DMatrix::from_fn(n2, mtx.ncols(), |i, j| mtx[(i % inst.n, j)]);
+        let table2 = Arc::new(Table {
+            n: n2,
+            m: inst.m,
+            p: inst.p,
+            entries: inst.table.entries.iter().map(|e| TableEntry { a: e.a.clone(), phi: rep_rows(&e.phi), dphi: e.dphi.iter().map(rep_rows).collect() }).collect(),
+        });
+        let y2 = DMatrix::from_fn(n2, inst.s, |i, s| inst.y[(i % inst.n, s)] * ysc);
+        let w2: Option<Vec<T>> = inst.w.as_ref().map(|w| (0..n2).map(|i| w[i % inst.n]).collect());
+        let flav = format!("{} twin: observations x 2^{}, every sample x{}", tag(idx, &fam, T::NAME, Kind::Table, mrhs, par, EpsVar::Default), yexp, kk);
+        let unscale = (2.0f64).powi(-yexp);
+        if let Ok(mut twin) = build_problem(TableModel::new(table2, &a_first), mrhs, par, &y2, w2.as_deref(), None) {
+            for &qi in order.iter().take(npts) {
+                let pt = &inst.line.pts[qi];
+                if !(pt.rank == mfull && pt.lvl >= 1 && inst.healthy[qi]) {
+                    continue;
+                }
+                let a: Vec<T> = pt.a.iter().map(|&v| T::of64(v as f64)).collect();
+                twin.set_params(&a);
+                let det = |what: &str, dv: f64| json!({"flavour": flav, "a": pt.a, "what": what, "dev": dv});
+                let tol = T::tol() * 10.0;
+                match (twin.coeffs(), twin.residuals()) {
+                    (Some(c), Some(r)) => {
+                        let mut wc = 0.0f64;
+                        for j in 0..inst.m {
+                            for s in 0..inst.s {
+                                wc = wc.max(dev(c[(j, s)].to64() * unscale, pt.cn[j][s], pt.d));
+                            }
+                        }
+                        rep.check("C01", wc <= tol, wc, || det("coefficients do not scale with the observations / change when samples are replicated", wc));
+                        let mut wr = 0.0f64;
+                        if r.len() == n2 * inst.s {
+                            for s in 0..inst.s {
+                                for i in 0..n2 {
+                                    wr = wr.max(dev(r[s * n2 + i].to64() * unscale, pt.rn[s * inst.n + i % inst.n], pt.d));
+                                }
+                            }
+                        } else {
+                            wr = f64::INFINITY;
+                        }
+                        rep.check("C02", wr <= tol, wr, || det("residuals do not scale with the observations / are not repeated for replicated samples", wr));
+                    }
+                    _ => rep.violation("C02", det("coefficients or residuals absent although the model evaluates", 0.0)),
+                }
+                if pt.lvl >= 2 {
+                    match twin.jacobian() {
+                        Some(jm) if jm.nrows() == n2 * inst.s && jm.ncols() == inst.p => {
+                            let d2 = pt.d * pt.d;
+                            let mut wj = 0.0f64;
+                            for k in 0..inst.p {
+                                for s in 0..inst.s {
+                                    for i in 0..n2 {
+                                        wj = wj.max(dev(jm[(s * n2 + i, k)].to64() * unscale, pt.jn[k][s * inst.n + i % inst.n], d2));
+                                    }
+                                }
+                            }
+                            rep.check("C03", wj <= tol, wj, || det("Jacobian does not scale with the observations / rows not repeated for replicated samples", wj));
+                        }
+                        _ => rep.violation("C03", det("jacobian absent or of the wrong shape", 0.0)),
+                    }
+                }
+                rep.count("data_scaled_replicated_twin_points", 1);
+            }
+        }
+    }
+
     // ---------------- C07: column-wise independence, permutation ----------------
     if inst.s >= 2 {
         let ev = EpsVar::User;
